@@ -37,7 +37,9 @@ def _uf(repo):
     f = repo.fn(TU + ".unify_types")
     if f.params[:2] != ["t1", "t2"]:
         raise AnalysisError("unify_types signature changed", anchor=f.qualname)
-    loops = [n for n in f.node.body if isinstance(n, ast.For)]
+    # the loop over the argument pairs: the outermost for-loop of the function (wherever it is nested in ifs)
+    loops = [n for n in iter_own_nodes(f.node) if isinstance(n, ast.For) and
+             not any(isinstance(a, (ast.For, ast.While)) for a in ancestors(n))]
     if len(loops) != 1:
         raise AnalysisError("unify_types: expected one argument loop", anchor=f.qualname)
     return f, loops[0]
@@ -95,10 +97,14 @@ def r1_single_writer(repo):
             call_name(n.value) == "unify_types" and is_within(n, lp)]
     for i, r in enumerate(recs):
         nm = src(r.targets[0])
-        blk = r._parent.body
-        nxt = blk[blk.index(r) + 1] if blk.index(r) + 1 < len(blk) else None
-        ok = isinstance(nxt, ast.If) and src(nxt.test).startswith("not %s or any(" % nm) and \
-            "%s.items()" % nm in src(nxt.test) and _is_empty_ret(nxt.body[-1])
+        # an empty answer is given exactly under `not <result> or any(<conflict>)`, whatever the layout of the test
+        ok = False
+        for e in [n for n in iter_own_nodes(lp) if _is_empty_ret(n) and n.lineno >= r.lineno]:
+            for t_, p_ in flat_guards(e, stop=lp):
+                txt = " ".join(src(t_).split())
+                if p_ and txt.startswith("not %s or any(" % nm) and "%s.items()" % nm in txt and \
+                        cfg_of(f.node).dominates(cfg_of(f.node).node(r), cfg_of(f.node).node(e)):
+                    ok = True
         obs.append(Ob("C10-R1", "recursive-result#%d:empty-or-conflict-gives-empty" % i, _w(f, r), ok,
                       "a nested unification that fails (empty) or conflicts with earlier bindings must give {}"))
     return obs
